@@ -120,7 +120,7 @@ def run(rep, tier, seed, workers):
                             'commit', 'abort']))
     # a savepoint (or commit) that fails while it flushes: one of two new
     # objects cannot be pickled
-    plan.append(dict(prop='C12', kind='M', d=depth - 1, objects=('n', 'm'),
+    plan.append(dict(prop='C12', kind='M', d=depth - 2, objects=('n', 'm'),
                      unpicklable=True,
                      kinds=['link', 'add', 'savepoint', 'rollback',
                             'savepoint-unpicklable', 'commit-unpicklable',
